@@ -189,22 +189,44 @@ type realRunner struct {
 	bad  string
 	// passed: per key, the buffer given to the latest Set of that key (small
 	// values are given to the cache in a buffer of their own).
-	passed map[string][]byte
+	passed    map[string][]byte
+	passedKey map[string][]byte
+}
+
+// reuseKey overwrites the key buffer given to the previous Set of key after a
+// Set that replaced the entry.
+func (r *realRunner) reuseKey(key string, replaced bool) {
+	if old := r.passedKey[key]; replaced {
+		for i := range old {
+			old[i] = 0xEE
+		}
+	}
 }
 
 func (r *realRunner) do(o Op) string {
 	switch o.Kind {
 	case "set":
 		v := o.value()
+		// The same for keys: every Set gets a key buffer of its own, and the
+		// key buffer of the previous Set of this key is reused by the caller
+		// once a later Set has replaced the entry.
+		kb := []byte(o.Key)
+		if r.passedKey == nil {
+			r.passedKey = map[string][]byte{}
+		}
+		defer func(prev []byte) { r.passedKey[o.Key] = kb }(nil)
 		if o.Big > 0 {
-			return fmt.Sprintf("set=%v", r.c.Set([]byte(o.Key), v))
+			replaced := r.c.Set(kb, v)
+			r.reuseKey(o.Key, replaced)
+			return fmt.Sprintf("set=%v", replaced)
 		}
 		// The cache keeps the slice it is given.  Once a Set has replaced the
 		// entry of a key, the buffer given to the previous Set of that key is
 		// the caller's again (it was either replaced just now or never
 		// stored): the caller reuses it, which must not show through the cache.
 		buf := bytes.Clone(v)
-		replaced := r.c.Set([]byte(o.Key), buf)
+		replaced := r.c.Set(kb, buf)
+		r.reuseKey(o.Key, replaced)
 		if r.passed == nil {
 			r.passed = map[string][]byte{}
 		}
